@@ -26,6 +26,7 @@ func runC15(r *Report, p *Program) {
 	c15R1(h)
 	c15R2(h)
 	c15R3(h)
+	c15R4(h)
 }
 
 // returnsTrueOnlyVia: in a bool function, every way of returning a possibly-true
